@@ -112,3 +112,72 @@ Section Potential.
     rewrite Hpt in Hpt'. inversion Hpt'; subst pt'. lra.
   Qed.
 End Potential.
+
+(* ---------------------------------------------------------------- least total cost with turn costs *)
+Section EdgePotential.
+  Variables (g : graph) (edges : list (nat * nat)) (cost : list Q) (turn : nat -> nat -> Q) (s : nat) (pi : list (option Q)).
+  Hypothesis Hg : gedges g = map (fun p => mkEdge (fst p) (snd p)) edges.
+  Hypothesis Hchk : check_edge_potential edges cost turn s pi = true.
+
+  Lemma joins_edges e a b : edge_joins g Forward e a b -> nth_error edges e = Some (a, b).
+  Proof.
+    intros (ed & Hge & Ht & Hk). unfold get_edge in Hge. rewrite Hg, nth_error_map in Hge.
+    destruct (nth_error edges e) as [[u v]|]; simpl in Hge; [|discriminate].
+    inversion Hge; subst ed. simpl in Ht, Hk. subst. reflexivity.
+  Qed.
+
+  Lemma idx_in i x : nth_error edges i = Some x -> In i (seq 0 (length edges)).
+  Proof. intros H. apply in_seq. split; [lia|]. simpl. apply nth_error_Some. congruence. Qed.
+
+  Lemma pot_first e b : nth_error edges e = Some (s, b) -> exists pe, nth e pi None = Some pe /\ pe <= nth e cost 0.
+  Proof.
+    intros He. unfold check_edge_potential in Hchk. rewrite forallb_forall in Hchk.
+    specialize (Hchk e (idx_in _ _ He)). rewrite He in Hchk. apply andb_true_iff in Hchk. destruct Hchk as [H1 _].
+    rewrite Nat.eqb_refl in H1. destruct (nth e pi None) as [pe|]; [|discriminate].
+    exists pe. split; [reflexivity|]. apply Qle_bool_iff. exact H1.
+  Qed.
+
+  Lemma pot_step e u a f b pe : nth_error edges e = Some (u, a) -> nth_error edges f = Some (a, b) ->
+    nth e pi None = Some pe -> exists pf, nth f pi None = Some pf /\ pf <= pe + turn e f + nth f cost 0.
+  Proof.
+    intros He Hf Hpe. unfold check_edge_potential in Hchk. rewrite forallb_forall in Hchk.
+    specialize (Hchk e (idx_in _ _ He)). rewrite He in Hchk. apply andb_true_iff in Hchk. destruct Hchk as [_ H2].
+    rewrite Hpe in H2. rewrite forallb_forall in H2. specialize (H2 f (idx_in _ _ Hf)). rewrite Hf in H2.
+    rewrite Nat.eqb_refl in H2. destruct (nth f pi None) as [pf|]; [|discriminate].
+    exists pf. split; [reflexivity|]. apply Qle_bool_iff. exact H2.
+  Qed.
+
+  (* a walk continuing after edge p (which arrives at a with potential pa) costs at least the potential of its
+     last edge, and that last edge arrives at the walk's end *)
+  Lemma pot_walk_edges a r t : walk g Forward a r t -> forall p u pa,
+    nth_error edges p = Some (u, a) -> nth p pi None = Some pa ->
+    exists b u', nth (List.last r p) pi None = Some b /\ nth_error edges (List.last r p) = Some (u', t)
+                 /\ b <= pa + route_total cost turn (Some p) r.
+  Proof.
+    induction 1 as [a | a f b' r c Hj Hw IH]; intros p u pa Hp Hpa.
+    - exists pa, u. simpl. repeat split; auto. lra.
+    - apply joins_edges in Hj. destruct (pot_step p u a f b' pa Hp Hj Hpa) as (pf & Hpf & Hle).
+      destruct (IH f a pf Hj Hpf) as (b & u' & Hb & Hl & Hle2).
+      assert (Hlast : forall (l : list nat) x d, List.last (x :: l) d = List.last l x).
+      { clear. induction l as [|y l IHl]; intros x d; [reflexivity|].
+        change (List.last (x :: y :: l) d) with (List.last (y :: l) d). rewrite (IHl y d), (IHl y x). reflexivity. }
+      specialize (Hlast r f p).
+      rewrite Hlast. exists b, u'. repeat split; auto. simpl. lra.
+  Qed.
+
+  (* if c0 is at most the potential of every edge arriving at t, no non-empty walk from s to t costs less than c0 *)
+  Theorem certified_least_total c0 t :
+    at_most_all c0 (potentials_into edges pi t) = true ->
+    forall r, r <> [] -> walk g Forward s r t -> c0 <= route_total cost turn None r.
+  Proof.
+    intros Hall r Hne Hw. destruct r as [|e r]; [congruence|].
+    inversion Hw as [|a e' b r' c Hj Hw']; subst. apply joins_edges in Hj.
+    destruct (pot_first e b Hj) as (pe & Hpe & Hle).
+    destruct (pot_walk_edges b r t Hw' e s pe Hj Hpe) as (pb & u' & Hpb & Hl & Hle2).
+    assert (Hin : In pb (potentials_into edges pi t)).
+    { unfold potentials_into. apply in_flat_map. exists (List.last r e). split; [eapply idx_in; eauto|].
+      rewrite Hl, Nat.eqb_refl, Hpb. left; reflexivity. }
+    unfold at_most_all in Hall. rewrite forallb_forall in Hall. specialize (Hall pb Hin). apply Qle_bool_iff in Hall.
+    simpl. lra.
+  Qed.
+End EdgePotential.
